@@ -285,7 +285,9 @@ def check_registry(rep, M: Metrics, pre: str = "") -> None:
     from .ir import Walker
     init = repo.need_method("OPF", "__init__")
     from .common import registry_accessor
-    w = Walker(repo, init, self_class="OPF", inline=registry_accessor(repo))
+    acc = registry_accessor(repo)
+    w = Walker(repo, init, self_class="OPF", inline=lambda f: acc(f) or (
+        f.cls == "OPF" and f.name.startswith("_") and not f.name.startswith("__") and f.name != "_read_distances"))
     st_d = [e for e in w.events if e.kind == "store" and e.target == ("attr", ("self",), "distance")]
     st_f = [e for e in w.events if e.kind == "store" and e.target == ("attr", ("self",), "distance_fn")]
     okd = len(st_d) == 1 and st_d[0].value == ("param", "distance")
